@@ -193,10 +193,13 @@ func (w *World) loadContractFile(path string) error {
 		case "at":
 			// at call <name> requires <expr>
 			k1, r1 := splitWord(rest)
-			if k1 != "call" {
-				return fmt.Errorf("%s:%d: expected 'at call'", path, ln)
+			if k1 != "call" && k1 != "update" {
+				return fmt.Errorf("%s:%d: expected 'at call' or 'at update'", path, ln)
 			}
 			nm, r2 := splitWord(r1)
+			if k1 == "update" {
+				nm = "mapupdate:" + nm
+			}
 			k2, r3 := splitWord(r2)
 			if k2 != "requires" {
 				return fmt.Errorf("%s:%d: expected 'at call F requires'", path, ln)
